@@ -651,7 +651,7 @@ def raw_calls_in_wrappers(ctx, world):
             ctx.ob("A6.rawcall", inst, True, loc_of(m, fnode), sample=f"{len(raws)} raw call(s), all re-traced before return")
         else:
             ctx.fail("A6.rawcall", inst, f"{fq}|{norm_text(exposed.node)[:60] if exposed.node is not None else '?'}", loc_of(m, fnode), f"the result of the raw call `{norm_text(exposed.node)[:70] if exposed.node is not None else exposed}` is returned without re-tracing: traced elements inside it are lost (object array) or dropped", "the function called with a list containing traced scalars/arrays")
-    ctx.floor("A6.rawcall wrappers with raw calls", n, 2)
+    ctx.floor("A6.rawcall wrappers with raw calls", n, 1)
 
 
 def _parents(n):
